@@ -72,24 +72,46 @@ def _call_named(node: ast.AST, name: str) -> bool:
 
 def check_frame(ctx: Check, tree: Tree) -> None:
     fn = tree.func(ANGLES + ".__recursive_helicity_angles")
-    from ..prov import _rd_for
+    from ..prov import CallInliner, _rd_for
 
     rd = _rd_for(fn, {})
-    inl = Inliner(fn.node, rd)
-    comps = [n for n in walk_function(fn.node) if isinstance(n, ast.DictComp) and any(_call_named(c, "ArrayMultiplication") for c in ast.walk(n.value))]
-    if len(comps) != 1:
-        raise AnalysisError(f"{fn.qual}: expected one boosted momentum pool (dict comprehension with ArrayMultiplication), found {len(comps)}")
-    comp = comps[0]
+    cinl = CallInliner(tree, fn, rd)  # a helper that the boost block was extracted into reads like the block itself
+
+    def boosted(n: ast.AST) -> ast.DictComp | None:
+        """The dict comprehension (all locals and straight-line helpers substituted) that ``n`` evaluates to, if
+        its values are ArrayMultiplication(...) products."""
+        if not (isinstance(n, ast.DictComp) or (isinstance(n, ast.Call) and tree.callee(n, fn) in tree.funcs and tree.callee(n, fn) != fn.qual)):
+            return None
+        e = cinl.expr(n)
+        if isinstance(e, ast.DictComp) and any(_call_named(c, "ArrayMultiplication") for c in ast.walk(e.value)):
+            return e
+        return None
+
+    found = [(n, e) for n in walk_function(fn.node) for e in [boosted(n)] if e is not None]
+    found = [(n, e) for n, e in found if not any(m is not n and any(x is n for x in ast.walk(m)) for m, _ in found)]  # outermost only
+    if len(found) != 1:
+        raise AnalysisError(f"{fn.qual}: expected one boosted momentum pool (dict comprehension with ArrayMultiplication), found {len(found)}")
+    comp_node, comp = found[0]  # the expression in the function / the comprehension it denotes
     key = f"{fn.qual}::frame-chain"
     problems = []
     am = next(c for c in ast.walk(comp.value) if _call_named(c, "ArrayMultiplication"))
-    am = inl.expr(am, stop={n.id for n in ast.walk(comp.generators[0].target) if isinstance(n, ast.Name)})
     args = []
     for a in am.args:  # ArrayMultiplication(*frame, p) with frame a tuple of matrices
         if isinstance(a, ast.Starred) and isinstance(a.value, (ast.Tuple, ast.List)):
             args.extend(a.value.elts)
         else:
             args.append(a)
+    # the pooled momenta may be filtered before they are mapped: `{k: f(p) for k, p in {k: p for k, p in pool.items() if c}.items()}`
+    filters = list(comp.generators[0].ifs)
+    source = comp.generators[0].iter
+    while True:
+        inner = source.func.value if isinstance(source, ast.Call) and isinstance(source.func, ast.Attribute) and source.func.attr == "items" and not source.args else source
+        if (isinstance(inner, ast.DictComp) and len(inner.generators) == 1 and isinstance(inner.generators[0].target, ast.Tuple)
+                and [unparse(x) for x in inner.generators[0].target.elts] == [unparse(inner.key), unparse(inner.value)]):
+            filters += inner.generators[0].ifs
+            source = inner.generators[0].iter
+            continue
+        break
     names = [a.func.id if isinstance(a, ast.Call) and isinstance(a.func, ast.Name) else None for a in args]
     if names[:3] != ["BoostZMatrix", "RotationYMatrix", "RotationZMatrix"] or len(args) != 4:
         problems.append(f"chain is {names}, not [BoostZMatrix, RotationYMatrix, RotationZMatrix, p]")
@@ -124,17 +146,17 @@ def check_frame(ctx: Check, tree: Tree) -> None:
         if P is not None:
             import re as _re
 
-            loop_vars = {unparse(a.target) for a in ancestors(comp) if isinstance(a, ast.For)}
+            loop_vars = {unparse(a.target) for a in ancestors(comp_node) if isinstance(a, ast.For)}
             mm = _re.search(r"determine_attached_final_state\(topology, (\w+)\)", P)
             if not (P.startswith("ArraySum(") and mm and mm.group(1) in loop_vars):
                 problems.append(f"the frame momentum `{P[:60]}` is not the sum over the final states attached to the decaying child")
         # (a filter `if k in sub_momenta_ids` only drops entries the recursion never reads:
         #  not a necessary condition, not checked.)  A filter must never drop own members:
-        for cond in comp.generators[0].ifs:
+        for cond in filters:
             if not (isinstance(cond, ast.Compare) and len(cond.ops) == 1 and isinstance(cond.ops[0], ast.In)
-                    and "determine_attached_final_state" in unparse(inl.expr(cond.comparators[0]))):
+                    and "determine_attached_final_state" in unparse(cond.comparators[0])):
                 problems.append(f"the boosted pool is filtered by `{unparse(cond)[:60]}`, which is not membership in the sub-system's final states")
-    ctx.verdict(not problems, "R-FRAME", key, tree.loc(comp),
+    ctx.verdict(not problems, "R-FRAME", key, tree.loc(comp_node),
                 "helicity frame = BoostZ(|P|/E) · RotationY(-Theta(P)) · RotationZ(-Phi(P)) applied to the sub-system's momenta, P = summed momentum of the decaying child",
                 problems or None)
     # recursion continues with the boosted pool into the child's decay node
@@ -144,7 +166,7 @@ def check_frame(ctx: Check, tree: Tree) -> None:
     for c in rec:
         if len(c.args) == 2:
             pool_defs = rd.closure(rd.uses(c.args[0]))
-            ok = any(d.value is comp for d in pool_defs) and "ending_node_id" in unparse(inl.expr(c.args[1]))
+            ok = any(d.value is comp_node for d in pool_defs) and "ending_node_id" in unparse(cinl.expr(c.args[1]))
             # ... and with nothing but that pool: every definition that reaches the argument
             # (through plain name copies) is the comprehension of THIS activation.  A pool read
             # back from a container that outlives the activation (a memo keyed by the
@@ -152,7 +174,7 @@ def check_frame(ctx: Check, tree: Tree) -> None:
             work, seen = [c.args[0]], set()
             while work:
                 e = work.pop()
-                if e is comp:
+                if e is comp_node:
                     continue
                 if isinstance(e, ast.Name):
                     for d in rd.uses(e):
@@ -172,9 +194,15 @@ def check_frame(ctx: Check, tree: Tree) -> None:
                 None if foreign is None else f"the pool may also be {foreign}: a frame reached through a different chain of parent frames differs by a Wigner rotation")
 
 
+def _state_arg(call: ast.Call) -> str | None:
+    """Source of the state id handed to a (topology, state_id) helper - positional or by keyword."""
+    a = call.args[1] if len(call.args) >= 2 else next((k.value for k in call.keywords if k.arg == "state_id"), None)
+    return unparse(a) if a is not None else None
+
+
 def normalised_id(tree: Tree, fn: FuncInfo, rd: RD, arg: ast.AST, call: ast.Call) -> str | None:
     """How is the state id handed to the naming function normalised to the helicity state?"""
-    txt = unparse(arg)
+    txt = unparse(Inliner(fn.node, rd).expr(arg))  # `first, _ = decay.children; first.id` is `decay.children[0].id`
     if ".children[0]" in txt:
         return "TwoBodyDecay.children[0] (normalised by from_transition)"
     if isinstance(arg, ast.Name):
@@ -185,7 +213,7 @@ def normalised_id(tree: Tree, fn: FuncInfo, rd: RD, arg: ast.AST, call: ast.Call
             for anc in ancestors(d.node):
                 if isinstance(anc, ast.If):
                     for c in ast.walk(anc.test):
-                        if isinstance(c, ast.Call) and tree.callee(c, fn) == OPPOSITE and len(c.args) >= 2 and unparse(c.args[1]) == arg.id:
+                        if isinstance(c, ast.Call) and tree.callee(c, fn) == OPPOSITE and _state_arg(c) == arg.id:
                             if not (isinstance(anc.test, ast.UnaryOp) and isinstance(anc.test.op, ast.Not)):
                                 hit = anc
             (guarded if hit is not None else plain).append((d, hit))
@@ -193,7 +221,7 @@ def normalised_id(tree: Tree, fn: FuncInfo, rd: RD, arg: ast.AST, call: ast.Call
             # the replacement must be the SIBLING of the first pick
             for d, anc in guarded:
                 v = d.value
-                if isinstance(v, ast.Call) and tree.callee(v, fn) == "ampform.helicity.decay::get_sibling_state_id" and len(v.args) >= 2 and unparse(v.args[1]) == arg.id:
+                if isinstance(v, ast.Call) and tree.callee(v, fn) == "ampform.helicity.decay::get_sibling_state_id" and _state_arg(v) == arg.id:
                     continue
                 if isinstance(v, ast.Subscript) and isinstance(v.slice, ast.Constant):
                     firsts = [p.value for p, _ in plain if isinstance(p.value, ast.Subscript) and isinstance(p.value.slice, ast.Constant) and unparse(p.value.value) == unparse(v.value)]
@@ -203,6 +231,82 @@ def normalised_id(tree: Tree, fn: FuncInfo, rd: RD, arg: ast.AST, call: ast.Call
             d, anc = guarded[0]
             return f"`if {unparse(anc.test)}: {unparse(d.node)[:50]}` (replaced by its sibling)"
     return None
+
+
+def _decided_tests(test: ast.AST, outcome: bool):
+    """(atomic test, outcome) pairs that are known once ``test`` evaluated to ``outcome``."""
+    from ..canon import normal_test
+
+    test, outcome = normal_test(test, outcome)
+    if isinstance(test, ast.BoolOp) and ((isinstance(test.op, ast.And) and outcome) or (isinstance(test.op, ast.Or) and not outcome)):
+        for v in test.values:
+            yield from _decided_tests(v, outcome)
+    else:
+        yield test, outcome
+
+
+def children_order(tree: Tree, ft: FuncInfo) -> tuple[list[str], list[str]]:
+    """On every returning path of ``TwoBodyDecay.from_transition``: the state handed to the constructor as
+    children[0] is one for which `is_opposite_helicity_state` was decided False on that path, or children[1]
+    is one for which it was decided True (exactly one of two siblings is the opposite-helicity state).  The
+    values are followed path by path (swap statement, conditional expression, helper, generator over the
+    ordered ids - all the same)."""
+    from ..paths import PathWalker
+    from ..prov import PathValues, as_display, ifexp_alternatives
+
+    state_ctor = "ampform.helicity.decay::StateWithID.from_transition"
+    keep = {OPPOSITE, state_ctor, ft.qual, "ampform.helicity.decay::get_sibling_state_id", "ampform.helicity.decay::determine_attached_final_state"}
+    walker = PathWalker(tree, expand=lambda q: q.startswith("ampform.") and q not in keep, max_depth=2)
+    problems: list[str] = []
+    shown: list[str] = []
+    n_ret = 0
+    for path in walker.paths(ft):
+        if path.exit != "return":
+            continue
+        n_ret += 1
+        pv = PathValues()
+        for ev in path.events:
+            pv.feed(ev)
+        ret = path.exit_node
+        whole = pv.value(ret.value) if ret is not None and ret.value is not None else None
+        if whole is None:
+            raise AnalysisError(f"{ft.qual}: bare return")
+        # a conditional expression inside the value is one more fork of the path
+        for val, extra in ifexp_alternatives(whole):
+            children = None
+            if isinstance(val, ast.Call):
+                children = next((k.value for k in val.keywords if k.arg == "children"), val.args[1] if len(val.args) > 1 else None)
+            elts = as_display(children) if children is not None else None
+            if elts is None or len(elts) != 2:
+                raise AnalysisError(f"{ft.qual}: cannot read the two children handed to the constructor from `{unparse(val)[:80]}`")
+            ids = []
+            for e in elts:
+                sid = None
+                if isinstance(e, ast.Call) and tree.resolve(ft.module, e.func, ft) == state_ctor:
+                    sid = next((k.value for k in e.keywords if k.arg == "state_id"), e.args[1] if len(e.args) > 1 else None)
+                if sid is None:
+                    raise AnalysisError(f"{ft.qual}: child `{unparse(e)[:60]}` is not StateWithID.from_transition(transition, <id>)")
+                ids.append(unparse(sid))
+            facts: dict[str, bool] = {}
+            for test, outcome in [*pv.tests, *extra]:
+                for t, o in _decided_tests(test, outcome):
+                    if isinstance(t, ast.Call) and (tree.resolve(ft.module, t.func, ft) == OPPOSITE or unparse(t.func).split(".")[-1] == OPPOSITE.split("::")[-1]):
+                        a = next((k.value for k in t.keywords if k.arg == "state_id"), t.args[1] if len(t.args) > 1 else None)
+                        if a is not None:
+                            facts[unparse(a)] = o
+            first, second = ids
+            shown.append("; ".join(f"opposite({a}) is {o}" for a, o in facts.items()) + f" -> children = ({first}, {second})")
+            if first == second:
+                problems.append(f"both children are `{first}`")
+            elif facts.get(first) is True:
+                problems.append(f"children[0] = `{first}` although it is the opposite-helicity state on this path")
+            elif facts.get(second) is False:
+                problems.append(f"children[1] = `{second}` although it is the helicity state on this path")
+            elif not (facts.get(first) is False or facts.get(second) is True):
+                problems.append(f"children = (`{first}`, `{second}`): not ordered by is_opposite_helicity_state on this path")
+    if n_ret < 1:
+        raise AnalysisError(f"{ft.qual}: no returning path")
+    return problems, shown
 
 
 def check_normalised(ctx: Check, tree: Tree) -> None:
@@ -225,29 +329,12 @@ def check_normalised(ctx: Check, tree: Tree) -> None:
                         None if how else "the id is not normalised with is_opposite_helicity_state: producer and consumer may name the same angle after different children")
     if n < 4:
         raise AnalysisError(f"only {n} call sites of get_helicity_angle_symbols (4 confirmed)")
-    # TwoBodyDecay.from_transition swaps so that children[0] is the helicity state
+    # TwoBodyDecay.from_transition orders the children so that children[0] is the helicity state
     ft = tree.func("ampform.helicity.decay::TwoBodyDecay.from_transition")
-    ok, detail = False, None
-    for node in walk_function(ft.node):
-        if isinstance(node, ast.If):
-            c = [x for x in ast.walk(node.test) if isinstance(x, ast.Call) and tree.callee(x, ft) == OPPOSITE]
-            if c and not (isinstance(node.test, ast.UnaryOp)):
-                tested = unparse(c[0].args[1])
-                swaps = [s for s in node.body if isinstance(s, ast.Assign) and isinstance(s.targets[0], ast.Tuple) and isinstance(s.value, ast.Tuple)]
-                if swaps:
-                    t = [unparse(e) for e in swaps[0].targets[0].elts]
-                    v = [unparse(e) for e in swaps[0].value.elts]
-                    ok = sorted(t) == sorted(v) and t != v and tested in t
-                    detail = {"tested": tested, "swap": f"{t} = {v}"}
-    # ... and the first child after the swap is children[0]
-    rd = RD(ft.node)
-    first = None
-    for node in walk_function(ft.node):
-        if isinstance(node, ast.keyword) and node.arg == "children" and isinstance(node.value, ast.Tuple):
-            first = unparse(node.value.elts[0])
-    ok = ok and first is not None and detail is not None and detail["tested"] in first
-    ctx.verdict(ok, "R-NORMALISED", f"{ft.qual}::swap", tree.loc(ft.node),
-                "TwoBodyDecay.from_transition: if the first outgoing state is the opposite-helicity state the two are swapped, so children[0] is the helicity state", detail)
+    problems, detail = children_order(tree, ft)
+    ctx.verdict(not problems, "R-NORMALISED", f"{ft.qual}::swap", tree.loc(ft.node),
+                "TwoBodyDecay.from_transition: if the first outgoing state is the opposite-helicity state the two are swapped, so children[0] is the helicity state",
+                detail if not problems else {"problems": problems, "paths": detail})
     # sign of the helicity index in the aligned amplitude symbol
     gs = tree.func("ampform.helicity.align.axisangle::get_opposite_helicity_sign")
     rets = {unparse(r.value) for r in walk_function(gs.node) if isinstance(r, ast.Return)}
@@ -256,30 +343,163 @@ def check_normalised(ctx: Check, tree: Tree) -> None:
     ctx.verdict(ok, "R-NORMALISED", f"{gs.qual}::sign", tree.loc(gs.node), "get_opposite_helicity_sign: -1 exactly for the opposite-helicity state, +1 otherwise")
 
 
+def convention_evaluator(tree: Tree):
+    """TermEval in which the decay of (transition, node_id) is the opaque object `decay`, and the naming
+    functions return opaque applications of the (topology, state id) they are asked for - so that WHICH state
+    a symbol is requested for can be read off the value, through any helper the request is routed through."""
+    from ..poly import sym
+    from ..terms import Opaque, TermEval, Tup, vkey
+    from .c02 import FROM_TRANSITION
+
+    te = TermEval(tree)
+    transition, node_id = Opaque(("transition",)), sym("node_id")
+
+    def decay(_te, args, kwargs):
+        given = [*args, *[kwargs[k] for k in ("transition", "node_id") if k in kwargs]]
+        if [vkey(a) for a in given] == [vkey(transition), vkey(node_id)]:
+            return Opaque(("decay",))
+        return Opaque(("decay-of", tuple(vkey(a) for a in given)))
+
+    def named(kind_names):
+        def f(_te, args, kwargs):
+            topology = kwargs.get("topology", args[0] if args else None)
+            state = kwargs.get("state_id", args[1] if len(args) > 1 else None)
+            if topology is None or state is None:
+                raise AnalysisError("naming function called without (topology, state_id)")
+            vals = [_te.app(k, [topology, state]) for k in kind_names]
+            return vals[0] if len(vals) == 1 else Tup(vals)
+        return f
+
+    te.fork = True  # every path is judged separately
+    te.overrides[FROM_TRANSITION] = decay
+    te.overrides[OPPOSITE] = named(["is-opposite"])
+    te.overrides[NAMING] = named(["phi-of", "theta-of"])
+    te.overrides["ampform.kinematics.lorentz::get_invariant_mass_symbol"] = named(["mass-of"])
+    return te, transition, node_id
+
+
 def check_convention(ctx: Check, tree: Tree) -> None:
-    from ..poly import RF, D, equal, sym
-    from ..terms import Opaque
-    from .c02 import _same, decay_evaluator, extract_apps
+    from ..poly import RF, D
+    from ..terms import PW, Opaque, Tup
+    from .c02 import _same, extract_apps
 
     D.reset()
-    te = decay_evaluator(tree)
+    te, transition, node_id = convention_evaluator(tree)
+    env = {"decay": Opaque(("decay",)), "transition": transition}
+    helicity_state = te.ev(ast.parse("decay.children[0].id", mode="eval").body, env)
+    topology = te.ev(ast.parse("transition.topology", mode="eval").body, env)
+    phi, theta = te.app("phi-of", [topology, helicity_state]), te.app("theta-of", [topology, helicity_state])
+    gk = tree.func("ampform.helicity::_generate_kinematic_variables")
+    res = te.eval_function(gk, [transition, node_id])
+    ok = all(isinstance(r, Tup) and len(r.items) == 3 and _same(te, r.items[1], phi) and _same(te, r.items[2], theta)
+             for r, _ in (res.branches if isinstance(res, PW) else [(res, None)]))
+    ctx.verdict(ok, "R-CONVENTION", f"{gk.qual}::angles-of-children0", tree.loc(gk.node),
+                "_generate_kinematic_variables: (phi, theta) are the angle symbols of decay.children[0] (the helicity state)", None if ok else repr(res)[:200])
     fn = tree.func("ampform.helicity::formulate_isobar_wigner_d")
-    val = te.eval_function(fn, [Opaque(("transition",)), sym("node_id")])
-    apps = extract_apps(te, val, "D")
-    if len(apps) != 1:
-        raise AnalysisError("formulate_isobar_wigner_d: expected one Wigner.D call")
-    got = apps[0]
-    want = {"alpha": -sym("PHI"), "beta": sym("THETA"), "gamma": RF.const(0)}
-    problems = [f"{k} = {got.get(k)!r} is not {'-phi' if k == 'alpha' else 'theta' if k == 'beta' else '0'}" for k, w in want.items() if not _same(te, got.get(k), w)]
+    val = te.eval_function(fn, [transition, node_id])
+    want = {"alpha": -phi, "beta": theta, "gamma": RF.const(0)}
+    problems = []
+    for branch in (val.branches if isinstance(val, PW) else [(val, None)]):
+        apps = extract_apps(te, branch[0], "D")
+        if len(apps) != 1:
+            raise AnalysisError("formulate_isobar_wigner_d: expected one Wigner.D call")
+        got = apps[0]
+        problems += [f"{k} = {got.get(k)!r} is not {'-phi' if k == 'alpha' else 'theta' if k == 'beta' else '0'}" + (" of decay.children[0]" if k != "gamma" else "")
+                     for k, w in want.items() if not _same(te, got.get(k), w)]
     ctx.verdict(not problems, "R-CONVENTION", f"{fn.qual}::euler-angles", tree.loc(fn.node),
                 "Wigner-D of a decay node takes (alpha, beta, gamma) = (-phi, theta, 0): the conjugate of the frame rotation R_y(-theta) R_z(-phi)", problems or None)
-    gk = tree.func("ampform.helicity::_generate_kinematic_variables")
-    inl2 = Inliner(gk.node)
-    ret = next(r for r in walk_function(gk.node) if isinstance(r, ast.Return))
-    rtxt = unparse(inl2.expr(ret.value)).replace(" ", "")
-    ok = "get_helicity_angle_symbols(transition.topology,TwoBodyDecay.from_transition(transition,node_id).children[0].id)" in rtxt
-    ctx.verdict(ok, "R-CONVENTION", f"{gk.qual}::angles-of-children0", tree.loc(gk.node),
-                "_generate_kinematic_variables: (phi, theta) are the angle symbols of decay.children[0] (the helicity state)", None if ok else rtxt[:200])
+
+
+def _unwrap_collection(e: ast.AST) -> ast.AST:
+    """Look through conversions that keep the elements: list(x), set(x), tuple(x), sorted(x), frozenset(x)."""
+    while isinstance(e, ast.Call) and isinstance(e.func, ast.Name) and e.func.id in {"list", "set", "tuple", "sorted", "frozenset"} and len(e.args) == 1 and not e.keywords:
+        e = e.args[0]
+    return e
+
+
+def sibling_definition(fn: FuncInfo) -> tuple[bool, str | None]:
+    """Is the (single) value returned by ``fn(topology, state)`` the one element of
+    ``topology.get_edge_ids_outgoing_from_node(topology.edges[state].originating_node_id)`` minus ``state``?
+    Accepted constructions of "minus": `.remove(state)` / `.discard(state)` on the collection, a comprehension over
+    it filtered by `x != state`, `- {state}` / `.difference({state})`; of "the one element": `next(iter(C))`,
+    `C[0]`, `C.pop()`, `(x,) = C`."""
+    if len(fn.params) < 2:
+        return False, "no (topology, state) parameters"
+    topo, state = fn.params[:2]
+    rd = RD(fn.node)
+    inl = Inliner(fn.node, rd)
+    rets = [r for r in walk_function(fn.node) if isinstance(r, ast.Return) and r.value is not None]
+    if len(rets) != 1:
+        return False, f"{len(rets)} return statements"
+    origin = f"{topo}.edges[{state}].originating_node_id"
+
+    def is_state(e: ast.AST) -> bool:
+        return isinstance(e, ast.Name) and e.id == state and all(d.kind == "param" for d in rd.reaching(e))
+
+    def is_raw(e: ast.AST) -> bool:
+        e = _unwrap_collection(inl.expr(e))
+        return (isinstance(e, ast.Call) and isinstance(e.func, ast.Attribute) and e.func.attr == "get_edge_ids_outgoing_from_node"
+                and unparse(e.func.value) == topo and len(e.args) == 1 and unparse(e.args[0]).replace(" ", "") == origin)
+
+    def is_minus(e: ast.AST, depth: int = 0) -> bool:
+        """``e`` evaluates to the outgoing edges of the originating node without ``state``."""
+        e = _unwrap_collection(e)
+        if isinstance(e, (ast.ListComp, ast.SetComp, ast.GeneratorExp)):
+            if len(e.generators) != 1:
+                return False
+            g = e.generators[0]
+            if not (isinstance(g.target, ast.Name) and isinstance(e.elt, ast.Name) and e.elt.id == g.target.id and len(g.ifs) == 1 and is_raw(g.iter)):
+                return False
+            c = g.ifs[0]
+            if not (isinstance(c, ast.Compare) and len(c.ops) == 1 and isinstance(c.ops[0], ast.NotEq)):
+                return False
+            a, b = c.left, c.comparators[0]
+            return any(isinstance(x, ast.Name) and x.id == g.target.id and is_state(y) for x, y in ((a, b), (b, a)))
+        if isinstance(e, ast.BinOp) and isinstance(e.op, ast.Sub):
+            return is_raw(e.left) and isinstance(e.right, ast.Set) and len(e.right.elts) == 1 and is_state(e.right.elts[0])
+        if isinstance(e, ast.Call) and isinstance(e.func, ast.Attribute) and e.func.attr == "difference" and len(e.args) == 1:
+            a = e.args[0]
+            return is_raw(e.func.value) and isinstance(a, (ast.Set, ast.List, ast.Tuple)) and len(a.elts) == 1 and is_state(a.elts[0])
+        if isinstance(e, ast.Name) and depth < 6:
+            defs = rd.reaching(e)
+            if not defs:
+                return False
+            for d in defs:
+                if d.kind == "assign" and d.index is None and isinstance(d.value, ast.AST):
+                    if not is_minus(d.value, depth + 1):
+                        return False
+                elif d.kind == "store" and isinstance(d.value, ast.Call) and isinstance(d.value.func, ast.Attribute) \
+                        and d.value.func.attr in {"remove", "discard"} and len(d.value.args) == 1 and is_state(d.value.args[0]):
+                    # x.remove(state): x was the complete collection before
+                    older = [o for o in d.deps if o.name == d.name]
+                    if not older or not all(o.kind == "assign" and o.index is None and isinstance(o.value, ast.AST) and is_raw(o.value) for o in older):
+                        return False
+                else:
+                    return False
+            return True
+        return False
+
+    v = rets[0].value
+    coll = None
+    if isinstance(v, ast.Call) and isinstance(v.func, ast.Name) and v.func.id == "next" and len(v.args) == 1 \
+            and isinstance(v.args[0], ast.Call) and isinstance(v.args[0].func, ast.Name) and v.args[0].func.id == "iter" and len(v.args[0].args) == 1:
+        coll = v.args[0].args[0]
+    elif isinstance(v, ast.Subscript) and isinstance(v.slice, ast.Constant) and v.slice.value == 0:
+        coll = v.value
+    elif isinstance(v, ast.Call) and isinstance(v.func, ast.Attribute) and v.func.attr == "pop" and not v.args:
+        coll = v.func.value
+    elif isinstance(v, ast.Name):
+        defs = rd.reaching(v)
+        if len(defs) == 1:
+            d = next(iter(defs))
+            tgt = d.node.targets[0] if isinstance(d.node, ast.Assign) and len(d.node.targets) == 1 else None
+            if d.kind == "assign" and d.index == 0 and isinstance(tgt, (ast.Tuple, ast.List)) and len(tgt.elts) == 1 and not isinstance(tgt.elts[0], ast.Starred):
+                coll = d.value
+    if coll is None:
+        return False, f"`{unparse(v)[:60]}` is not the single element of a collection"
+    if not is_minus(coll):
+        return False, f"`{unparse(inl.expr(coll))[:80]}` is not the outgoing edges of `{origin}` minus `{state}`"
+    return True, None
 
 
 def check_topology_helpers(ctx: Check, tree: Tree) -> None:
@@ -297,14 +517,19 @@ def check_topology_helpers(ctx: Check, tree: Tree) -> None:
     rets = [r for r in walk_function(fn.node) if isinstance(r, ast.Return) and r.value is not None]
     ok = False
     detail = None
-    if len(rets) == 1 and isinstance(rets[0].value, ast.Compare) and len(rets[0].value.ops) == 1 and isinstance(rets[0].value.ops[0], ast.Gt):
+    if len(rets) == 1 and isinstance(rets[0].value, ast.Compare) and len(rets[0].value.ops) == 1 and isinstance(rets[0].value.ops[0], (ast.Gt, ast.Lt)):
+        # `a > b` and `b < a` are the same strict order; sorted lists of ints compare like the tuples made of them
+        greater, smaller = rets[0].value.left, rets[0].value.comparators[0]
+        if isinstance(rets[0].value.ops[0], ast.Lt):
+            greater, smaller = smaller, greater
+
         def side(n):
             inner = n.args[0] if isinstance(n, ast.Call) and unparse(n.func) in {"tuple", "list"} and n.args else n
             txt = " ".join([unparse(inner)] + [unparse(d.value) for d in rd.closure(rd.uses(inner)) if isinstance(d.value, ast.AST)])
             if "determine_attached_final_state(" not in txt:
                 return None
             return "sibling" if "get_sibling_state_id(" in txt else "state"
-        l_, r_ = side(rets[0].value.left), side(rets[0].value.comparators[0])
+        l_, r_ = side(greater), side(smaller)
         ok = (l_, r_) == ("state", "sibling")
         detail = (l_, r_)
     ctx.verdict(ok, "R-HELPERS", f"{fn.qual}::strict-order", tree.loc(fn.node),
@@ -323,12 +548,8 @@ def check_topology_helpers(ctx: Check, tree: Tree) -> None:
     ctx.verdict(ok, "R-HELPERS", f"{fn.qual}::definition", tree.loc(fn.node), "determine_attached_final_state: [state] iff the edge has no ending node, else the sorted final-state ids below its ending node")
     # 3
     fn = tree.func(f"{mod}::get_sibling_state_id")
-    rd = RD(fn.node)
-    txt = unparse(fn.node).replace(" ", "")
-    rets = [r for r in walk_function(fn.node) if isinstance(r, ast.Return) and r.value is not None]
-    ok = (len(rets) == 1 and "get_edge_ids_outgoing_from_node(" in " ".join(unparse(d.value) for d in rd.closure(rd.uses(rets[0].value)) if isinstance(d.value, ast.AST))
-          and ".originating_node_id" in txt and any(isinstance(n, ast.Call) and isinstance(n.func, ast.Attribute) and n.func.attr in {"remove", "discard"} and [unparse(a) for a in n.args] == [fn.params[1]] for n in walk_function(fn.node)))
-    ctx.verdict(ok, "R-HELPERS", f"{fn.qual}::definition", tree.loc(fn.node), "get_sibling_state_id: the outgoing edges of the originating node minus the state itself")
+    ok, detail = sibling_definition(fn)
+    ctx.verdict(ok, "R-HELPERS", f"{fn.qual}::definition", tree.loc(fn.node), "get_sibling_state_id: the outgoing edges of the originating node minus the state itself", detail)
     # 4
     fn = tree.func(f"{mod}::get_parent_id")
     rets = [r for r in walk_function(fn.node) if isinstance(r, ast.Return)]
